@@ -1325,7 +1325,11 @@ void gen_c19(Gen &g) {
     }
     unsigned w = (unsigned)r.below(20);
     std::string path;
-    if (w == 0)
+    if (w == 0 && r.chance(1, 3)) {
+      // a name as long as a path can be, or longer: nothing there, or not even a valid name
+      static const long lens[] = {300, 2000, 4000, 4070, 4095, 4096, 4200, 6000, 9000};
+      path = long_path(p.world, lens[r.below(9)], "no_such_file_", false);
+    } else if (w == 0)
       path = "/sim/missing.asm";
     else if (w == 1)
       path = "/sim/secret.asm";
